@@ -308,6 +308,11 @@ def run(ctx):
         if r['fails']:
             res.oracle_failures.append({'key': 'pysnmp-exec', 'what': 'directed set %s: %s' % (label, '; '.join(map(str, r['what']))[:300]),
                                         'input': {'texts': texts}})
+    # the notes in the docstring of the generated module (source path, host, user): whatever they hold, the module is valid Python
+    for bad in header_notes_failures():
+        res.oracle_failures.append(bad)
+    res.case(('header-notes',), True)
+    res.count('header-notes')
     # BITS objects with a DEFVAL (the shared generator leaves them out because of the recorded defect)
     for i in range(2 if ctx.tier == 'quick' else 10):
         r = random.Random(base + 70000 + i)
@@ -365,6 +370,53 @@ def run(ctx):
                 res.corr_failures.append({'what': 'expanded imports of %s differ from Model.Pysnmp.expandImports' % m2, 'module': mn,
                                           'impl': impl_syms, 'model': out.get('expanded')})
     res.sample({'text': list(obs['texts'].values())[0][:1200]})
+
+
+def header_notes_failures():
+    """a module compiled from a directory whose name holds backslash sequences (C:\\Users\\new\\x41: a Windows path, legal
+    as a directory name here) through the real FileReader: the path goes into the docstring of the generated module"""
+    import os
+    import shutil
+    from common import scratch_dir
+    from pysmi.compiler import MibCompiler
+    from pysmi.parser.smi import parserFactory
+    from pysmi.codegen.pysnmp import PySnmpCodeGen
+    from pysmi.reader.localfile import FileReader
+    from pysmi.reader.callback import CallbackReader
+    from pysmi.writer.callback import CallbackWriter
+    from pysmi.searcher.stub import StubSearcher
+    base = scratch_dir()
+    out = {}
+    fails = []
+    try:
+        d = os.path.join(base, 'C:\\Users\\new\\x41\\N{x}')
+        os.makedirs(d)
+        text = 'ACME-HDR-MIB DEFINITIONS ::= BEGIN IMPORTS enterprises FROM SNMPv2-SMI;\nacmeHdr OBJECT IDENTIFIER ::= { enterprises 86 }\nEND\n'
+        with open(os.path.join(d, 'ACME-HDR-MIB'), 'w') as f:
+            f.write(text)
+        comp = MibCompiler(parserFactory(**pc_dialect())(), PySnmpCodeGen(), CallbackWriter(lambda n, t, c: out.__setitem__(n, t)))
+        comp.addSources(FileReader(d), CallbackReader(lambda n, c: pipeline.base_text(n) or ''))
+        comp.addSearchers(StubSearcher(*PySnmpCodeGen.baseMibs))
+        inp = {'header_dir': True}
+        try:
+            st = comp.compile('ACME-HDR-MIB', genTexts=True)
+        except BaseException as e:
+            return [{'key': 'pysnmp-exec', 'what': 'compile() from a directory named with backslashes raised %s: %s' % (type(e).__name__, e), 'input': inp}]
+        if str(st.get('ACME-HDR-MIB')) != 'compiled':
+            return [{'key': 'pysnmp-exec', 'what': 'module from a directory named with backslashes: %s' % st.get('ACME-HDR-MIB'), 'input': inp}]
+        try:
+            recbuilder.execute(out['ACME-HDR-MIB'], 'ACME-HDR-MIB')
+        except BaseException as e:
+            fails.append({'key': 'pysnmp-exec', 'what': 'module compiled from a directory named with backslashes does not load: %s: %s' % (type(e).__name__, str(e)[:160]),
+                          'input': inp})
+    finally:
+        shutil.rmtree(base, ignore_errors=True)
+    return fails
+
+
+def pc_dialect():
+    from props import parse_common as pc
+    return pc.DIALECTS['smiV1Relaxed']
 
 
 def directed_sets():
@@ -428,6 +480,9 @@ def search(ctx):
 def replay(payload):
     inp = payload['input']
     key = payload.get('key', '')
+    if inp.get('header_dir'):
+        bad = header_notes_failures()
+        return {'fails': bool(bad), 'what': [b['what'] for b in bad]}
     if inp.get('run_set'):
         return cg.replay_regenerated('C04', inp, check_set, payload.get('key'))
     texts = inp['texts']
